@@ -287,6 +287,7 @@ void do_op(string op) {
       r = catch(deep(6)); rec("PROBE deep=" + (r ? 1 : 0));
       q = load_object("/pl1"); rec("PROBE load=" + (q ? 1 : 0)); if (q) destruct(q);
       q = find_object("/pl2"); if (q) destruct(q);
+      q = find_object("/pl3"); if (q) destruct(q);
       q = new("/vobj"); rec("PROBE clone=" + (q ? 1 : 0));
       if (q) { q->do_move(this_object()); rec("PROBE env=" + (environment(q) == this_object())); }
       rec("PROBE present=" + (q && present(q, this_object()) ? 1 : 0));
